@@ -162,8 +162,8 @@ _TIE_TEXT = {
  'C01': "render.Sizer.Check and Menu.reset",
  'C02': "State.Next/Previous/Sides/Top/Same, Menu.reset, Sizer.Check",
  'C03': "State.Previous (IndexError on page 0), Next, Top, Same",
- 'C04': "State.Next/Previous/Same/Top/Sides and Down/Up (panics included)",
- 'C08': "State.Down/Up (the regenerated definitions make every run-time panic explicit: only Down's two explicit ones exist)",
+ 'C04': "State.Next/Previous/Same/Top/Sides and Down/Up/Where/Depth (panics included)",
+ 'C08': "State.Down/Up/Where/Depth (the regenerated definitions make every run-time panic explicit: only Down's two explicit ones exist)",
  'C05': "Cache.checkCapacity, Levels",
  'C06': "state.IsWriteableFlag, toByteSize",
  'C09': "Cache.checkCapacity, Levels",
